@@ -296,6 +296,12 @@ func TestC03(t *testing.T) {
 				c.Others = [][2]string{{"a", "1"}, {"zz", ""}}
 				c.Pos = rapid.IntRange(0, 2).Draw(t, "pos")
 			}
+			if car == "url" || car == "urlenc" {
+				c.Bare = rapid.Bool().Draw(t, "bare") // an empty value of ours written as the bare name (no '=')
+				if c.Bare && !missing && st.name == "zero" {
+					ev.Class("url-empty-value-written-bare")
+				}
+			}
 			msg, skipped := checkC03(c)
 			ev.Class("state=" + st.name)
 			ev.Class("carrier=" + car)
